@@ -321,6 +321,15 @@ where
                             ));
                         }
                     }
+                    // On y' = 0 every error estimate is exactly zero, so no solver ever shrinks its step:
+                    // MinimumTimeDeltaExceeded can only mean that the builder handed over
+                    // dt_min > dt_max, i.e. the min/max coupling rule was not applied.
+                    Some(Err(IVPError::MinimumTimeDeltaExceeded)) => {
+                        return Err((
+                            "minimum-exceeds-maximum".into(),
+                            format!("the y' = 0 probe solve reported MinimumTimeDeltaExceeded at its first step: the builder left minimum > maximum (contract: ({}, {}))", mn, mx),
+                        ));
+                    }
                     _ => st.first_item_err += 1,
                 }
             }
